@@ -136,6 +136,17 @@ func (s *sessGen) minBranch(t *ast.Ty) int {
 	return bi
 }
 
+// polarity of a protocol type (+1 positive, -1 negative), through names.
+func (s *sessGen) polarity(t *ast.Ty) int {
+	for t.K == ast.KName {
+		t = s.defs[t.Name]
+	}
+	if t.K == ast.KWith || t.K == ast.KLolli {
+		return -1
+	}
+	return 1
+}
+
 func (s *sessGen) ann(t *ast.Ty) *ast.Ty { return annOf(s.m, t) }
 func (s *sessGen) one() *ast.Ty         { return annOf(s.m, ast.One(s.m)) }
 
@@ -264,12 +275,12 @@ func (s *sessGen) cons(x string, t *ast.Ty, k *ast.Term, budget int) *ast.Term {
 	if budget > 0 && t.K != ast.KOne {
 		if s.m.W() && g.Chance(8, "sessdrop") {
 			g.feat("session-dropped")
-			return tDrop(x, k)
+			return g.withPol(tDrop(x, k), s.polarity(t))
 		}
 		if s.m.C() && g.Chance(8, "sesssplit") {
 			g.feat("session-split")
 			a, b := g.fresh("l"), g.fresh("r")
-			return tSplit(a, b, x, s.consVia(a, t, s.cons(b, t, k, budget-1), budget-1))
+			return g.withPol(tSplit(a, b, x, s.consVia(a, t, s.cons(b, t, k, budget-1), budget-1)), s.polarity(t))
 		}
 	}
 	switch t.K {
